@@ -3,6 +3,7 @@ package main
 import (
 	"encoding/json"
 	"fmt"
+	"github.com/Trendyol/go-dcp/config"
 	"github.com/couchbase/gocbcore/v10"
 
 	dcp "github.com/Trendyol/go-dcp"
@@ -115,10 +116,16 @@ func init() {
 			t := vs[vrt.Choose(len(vs), true, "version")]
 			k := [][2]string{{"membase", "couchstore"}, {"membase", "magma"}}[vrt.Choose(2, true, "bucket")]
 			fault := vrt.Choose(3, true, "first-connect") // 0 fine, 1 error, 2 never answered
+			rest := vrt.Choose(3, true, "rest-lookup")    // 0 fine, 1 /pools answered 404, 2 bucket lookup answered 404
+			bufSize := []any{nil, 0, "0", "1mb"}[vrt.Choose(4, true, "dcp.bufferSize")]
 			resetGlobals()
+			mgmtFault = []string{"", "pools", "bucket"}[rest]
 			o := DcpOpts{ServerVersion: versionString(t), BucketType: k[0], Storage: k[1]}
 			o.Vbs = 2
 			o.CheckpointType = "manual"
+			if bufSize != nil {
+				o.Tweak = func(cfg *config.Dcp) { cfg.Dcp.BufferSize = bufSize }
+			}
 			c := NewCluster(&o.EnvOpts)
 			armed := fault != 0
 			c.Fault = func(r *gocbcore.SimRequest) gocbcore.SimAnswer {
@@ -132,10 +139,10 @@ func init() {
 				return gocbcore.SimAnswer{}
 			}
 			e := NewDcpEnv(c, o)
-			desc := fmt.Sprintf("version %v bucket %v, first DCP connect: %s", t, k, []string{"fine", "rejected", "never answered"}[fault])
+			desc := fmt.Sprintf("version %v bucket %v, first DCP connect: %s, REST: %s, dcp.bufferSize=%v", t, k, []string{"fine", "rejected", "never answered"}[fault], []string{"fine", "/pools answered 404", "bucket lookup answered 404"}[rest], bufSize)
 			vrt.SetOutcome(desc)
 			if e.Err != nil {
-				if fault == 0 {
+				if fault == 0 && rest == 0 {
 					vrt.Failf("%s: newDcp failed: %v", desc, e.Err)
 				}
 				return
